@@ -50,7 +50,8 @@ ASSUMPTIONS = [
     "max|record| because reductions over a sharded axis are summed in a different order; round-off differences (1-3 "
     "ulp of max|F|, made where the field is large) travel with the wave, so Field/Phasor records use scale = "
     "max(max|record|, rho*max|F| over the whole domain and all steps) with rho = 1e-3 (f64) / 1 (f32), Energy/Poynting "
-    "records are compared only where the local field reaches 1e-3 (f64) / 0.2 (f32) of max|F|, and reduced Poynting "
+    "records are always compared when the field histories are bit-equal, otherwise only when their raw per-cell values "
+    "reach rho_q^2*max|F|^2 (rho_q = 0.03 f64 / 0.8 f32; unreduced twin detector for reduced records), and reduced Poynting "
     "sums are scaled by their cancellation factor sum|S_i|/|sum S_i| from an unreduced twin detector (otherwise a "
     "mean that cancels to 1e-23 would be compared with itself)",
     "a child that does not see the requested device count is a harness error, never a violation",
@@ -352,10 +353,10 @@ def _with_aux(scene):
                             "hi": list(scene["shape"]), "reduce": False,
                             "components": ["Ex", "Ey", "Ez", "Hx", "Hy", "Hz"]})
     for d in scene["detectors"]:
-        if d["type"] == "poynting" and d.get("reduce"):
+        if d["type"] in ("poynting", "energy") and d.get("reduce"):
             t = copy.deepcopy(d)
-            t["name"] = d["name"] + TWIN
-            t["reduce"] = False
+            t.update(name=d["name"] + TWIN, reduce=False)
+            t.pop("as_slices", None)
             sc["detectors"].append(t)
     return sc
 
@@ -477,7 +478,7 @@ def body(ctx, case):
     by_name = {d["name"]: d for d in scene["detectors"]}
     # quiet-region floors as fractions of max|F| over the whole domain and all steps (see _with_aux)
     rho_lin = ctx.tol(1e-3, 1.0)
-    rho_quad = ctx.tol(1e-3, 0.2)
+    rho_quad = ctx.tol(0.03, 0.8)
     for n in DEVICE_COUNTS[1:]:
         got = res[n][1]
         ctx.check(set(got) == set(ref), f"{n}-device run returns different records", observed=sorted(got), expected=sorted(ref))
@@ -507,9 +508,12 @@ def body(ctx, case):
                 c = 2.0 if d["type"] == "phasor" else 1.0
                 big = max(big, c * rho_lin * fmax)
             else:
-                region = (slice(None), slice(None), *(slice(max(lo - 1, 0), hi + 1) for lo, hi in zip(d["lo"], d["hi"])))
-                if _amax(allref[region]) < rho_quad * fmax:
-                    ctx.classify("quadratic-in-quiet-region-not-checked")
+                rawk = f"det::{name}{TWIN}::" + k.split("::")[2]
+                raw = ref[rawk] if rawk in ref else ref[k]
+                if err > 0.0 and _amax(raw) < rho_quad * rho_quad * fmax * fmax:
+                    # the field histories differ by round-off: a product of fields then carries the absolute noise
+                    # eps*max|F|*(|E|+|H|), above the tolerance for records below rho_quad^2*max|F|^2
+                    ctx.classify("quadratic-below-noise-not-checked")
                     continue
                 if d["type"] == "poynting" and d.get("reduce"):
                     tw = ref[f"det::{name}{TWIN}::poynting_flux"].astype(np.float64)
